@@ -50,11 +50,14 @@ CHECKS.update({
 })
 
 CHECKS.update({
-    'C07': ('model_checking', 'symbolic execution of the whole spec.Parse and Spec.DFA on four fixed openings followed by every token sequence up to a length bound (kinds symbolic, lexemes from small pools so that every documented defect arises): the specification is rejected iff a documented defect is present according to a well-formedness predicate evaluated on the reference derivation tree; diagnostics name only present defects; accepted specifications have exactly one definition per terminal', '§7 C07 / §13.3'),
+    'C07': ('model_checking', 'symbolic execution of the whole spec.Parse and Spec.DFA on five fixed openings followed by every token sequence up to a length bound (kinds symbolic, lexemes from small pools so that every documented defect arises): the specification is rejected iff a documented defect is present according to a well-formedness predicate evaluated on the reference derivation tree; diagnostics name only present defects; accepted specifications have exactly one definition per terminal', '§7 C07 / §13.3'),
+})
+
+CHECKS.update({
+    'C15': ('model_checking', 'PARTIAL: map-order mode of the symbolic executor - the iteration order of every Go map that emerge\'s own code ranges over is a decision of the path (every permutation of the first 3 [thorough 4] entries is explored); spec.Parse + Spec.DFA on seven fixed openings followed by every token sequence up to a length bound (kinds symbolic), and golang.Generate on a small corpus with the OS succeeding and template execution replaced by a recorder of the template data, are each run once in sorted order and once under every order: diagnostics and their order, the specification, the final-state lists, the template data and the files opened must be identical; counterexamples are confirmed natively by repeating the run under the Go runtime\'s own map randomisation. NOT decided: randomised traversals inside moorara/algo (math/rand is opaque), hash seeds of fresh processes, scheduling', '§13 C15'),
 })
 
 NA = {
-    'C15': 'nondeterminism sources (map iteration, time-seeded shuffle) sit behind the whole automata/template stack; deciding technique is run-twice-and-diff, outside this family (DESIGN.md §7 C15)',
 }
 
 
